@@ -73,14 +73,6 @@ theorem getElem?_lt {α} {l : List α} {k : Nat} {a : α} (h : l[k]? = some a) :
 
 /-! ## local invariant of one writer -/
 
-/-- The temp file a writer currently holds. -/
-def PC.owns : PC → Option Nat
-  | .body n _ _ => some n
-  | .close n _ => some n
-  | .replace n => some n
-  | .unlink n _ _ => some n
-  | _ => none
-
 /-- What one writer needs of the directory. `old` is the destination's state when it started. -/
 def Good (cfg : Cfg) (old : Option Bytes) (fs : FS) : PC → Prop
   | .mkdir => get fs cfg.dest = old
